@@ -72,10 +72,43 @@ func Build(form string, p *refcodec.Packet, from netip.Addr, c BuildCtx) ([]byte
 		proto := q.Proto
 		switch q.Proto {
 		case refcodec.ProtoICMP:
-			if l4[0] != 0 {
-				return nil, fmt.Errorf("v6mapped: only echo replies among the ICMP forms")
-			}
 			proto = refcodec.ProtoICMPv6
+			if l4[0] == 11 || l4[0] == 3 {
+				// an ICMP error: the ICMPv6 counterpart (time exceeded 3/0, destination unreachable 1/4 port, 1/1 otherwise)
+				// quoting an IPv6 header between the mapped forms of the quoted addresses; its payload-length field carries
+				// the quoted IPv4 identification (the number an IPv6 UDP/TCP quote is identified by), then the quoted transport bytes
+				if len(l4) < 8+20 {
+					return nil, fmt.Errorf("v6mapped: error without a quoted header")
+				}
+				qv4 := l4[8:]
+				qihl := int(qv4[0]&0x0f) * 4
+				if qihl < 20 || len(qv4) < qihl {
+					return nil, fmt.Errorf("v6mapped: bad quoted header")
+				}
+				t6, c6 := byte(3), byte(0)
+				if l4[0] == 3 {
+					t6, c6 = 1, 1
+					if l4[1] == 3 {
+						c6 = 4
+					}
+				}
+				qsrc, _ := netip.AddrFromSlice(qv4[12:16])
+				qdst, _ := netip.AddrFromSlice(qv4[16:20])
+				q6 := make([]byte, 40)
+				q6[0] = 0x60
+				copy(q6[4:6], qv4[4:6]) // payload length := quoted identification
+				q6[6], q6[7] = qv4[9], 1
+				s16, d16 := netip.AddrFrom16(qsrc.As16()).As16(), netip.AddrFrom16(qdst.As16()).As16()
+				copy(q6[8:], s16[:])
+				copy(q6[24:], d16[:])
+				m := append([]byte{t6, c6, 0, 0, 0, 0, 0, 0}, q6...)
+				m = append(m, qv4[qihl:]...)
+				binary.BigEndian.PutUint16(m[2:], refcodec.L4Checksum(src, dst, proto, m))
+				return refcodec.Wrap(src, dst, proto, 60, 0, m), nil
+			}
+			if l4[0] != 0 {
+				return nil, fmt.Errorf("v6mapped: echo replies and errors among the ICMP forms")
+			}
 			l4[0] = 129
 			l4[2], l4[3] = 0, 0
 			binary.BigEndian.PutUint16(l4[2:], refcodec.L4Checksum(src, dst, proto, l4))
